@@ -125,7 +125,14 @@ type Channel struct {
 func (c *Channel) Open() (reterr error) {
 	if c.closed.Load() {
 		// opening again after a Close: the shutdown signals of the previous session are used up, start
-		// over with fresh ones (and without whatever that session left unread)
+		// over with fresh ones (and without whatever that session left unread). a forced close may have
+		// returned while the old read loop was still on its way out, give it a moment so that its exit
+		// does not land on the new session.
+		select {
+		case <-c.readerDone:
+		case <-time.After(time.Second):
+		}
+
 		c.done = make(chan struct{})
 		c.readerDone = make(chan struct{})
 		c.closeOnce = sync.Once{}
